@@ -1,7 +1,7 @@
 """C06 - body effects follow the run signal (comb / sync / av_comb / top_comb semantics)."""
 
 from tv.designs import gen_spec
-from tv.props._core_a import run_design
+from tv.props._core_a import run_design, tier_opts
 
 ID = "C06"
 ENGINE = "A"
@@ -22,7 +22,7 @@ def budget(tier):
 
 
 def strategy(tier):
-    return gen_spec(allow_rels=False, allow_wit=True, wit_bias=True, allow_data=False, allow_alias=False, sched="eager", max_methods=3)
+    return gen_spec(**{**tier_opts(tier), **dict(allow_rels=False, allow_wit=True, wit_bias=True, allow_data=False, allow_alias=False, sched="eager", max_methods=3)})
 
 
 def run_case(case):
